@@ -86,6 +86,23 @@ def popon_doc(groups, d, same_second):
     return "\n".join(lines)
 
 
+def flash_doc(texts, d, flash_first):
+    """a pop-on stream with one ordinary caption (rows 14 / 15 = texts) and one caption that is erased one frame after it
+    appears (displayed for less than 0.05 s: the reader refuses such a stream, C06) - before or after the ordinary one"""
+    lines = ["Scenarist_SCC V1.0", ""]
+    t = 30
+    main = [C.ENM] * d + [C.RCL] * d
+    for row, text in zip((14, 15), texts):
+        main += row_words(row, text, d)
+    main += [C.EOC] * d
+    flash = [C.ENM] * d + [C.RCL] * d + row_words(8, "Zz", d) + [C.EOC] * d + [C.EDM] * d
+    for w in ([flash, main] if flash_first else [main, flash]):
+        lines += [tc(t) + "\t" + " ".join(w), ""]
+        t += len(w) + 90
+    lines += [tc(t + 60) + "\t" + " ".join([C.EDM] * d), ""]
+    return "\n".join(lines)
+
+
 def tc(fr):
     s = fr // 30
     return f"{s // 3600:02d}:{(s // 60) % 60:02d}:{s % 60:02d}:{fr % 30:02d}"
@@ -296,6 +313,17 @@ def run_shard(d):
                                     acc.violation(sig + "/preamble-spelling:" + "+".join(sorted(set(st))), case, det)
         finally:
             PAC_STYLE = ("plain", "plain")
+        # a row that is too long in a stream that also holds a caption shown for one frame: still the line-length error
+        for lens in ((33,), (40,), (33, 1), (1, 33), (40, 33)):
+            for dd in (1, 2):
+                for flash_first in (False, True):
+                    texts = [mk(LETTERS[i], L) for i, L in enumerate(lens)]
+                    doc = flash_doc(texts, dd, flash_first)
+                    v, res = judge(doc, texts + ["Zz"], "pop-on")
+                    acc.traces += 1
+                    acc.case(("flash", lens, dd, flash_first), True, res, {"mode": "pop-on", "row_lengths": lens, "doubled": dd == 2, "one_frame_caption": "before" if flash_first else "after"})
+                    for sig, det in v:
+                        acc.violation(sig + "/stream-also-holds-a-one-frame-caption", {"k": "flash", "texts": texts, "d": dd, "flash_first": flash_first}, det)
     else:
         for rows in ([15], [14, 15], [1, 8, 15], [12, 13, 14, 15], [1, 2, 8, 9]):
             for lens in itertools.product(LENGTHS, repeat=len(rows)):
@@ -340,6 +368,9 @@ def replay(case):
         v, _ = judge(popon_doc(groups, case["d"], case["same_second"]), texts, "pop-on")
     elif k == "roll":
         v, _ = judge(rollup_doc(case["depth"], case["texts"], case["d"]), case["texts"], f"roll-up{case['depth']}")
+    elif k == "flash":
+        v, _ = judge(flash_doc(case["texts"], case["d"], case["flash_first"]), case["texts"] + ["Zz"], "pop-on")
+        v = [(s_ + "/stream-also-holds-a-one-frame-caption", d_) for s_, d_ in v]
     elif k == "paint":
         v, _ = judge(painton_doc(case["rows"], case["texts"], case["d"]), case["texts"], "paint-on")
     else:
